@@ -290,8 +290,6 @@ func c08EstRun(rc *RunCtx, p *C08Params) {
 	}
 	if p.Mode == "R" {
 		s.Probe("survived-spoofed-retransmissions")
-
-		return
 	}
 	if p.Mode == "K" {
 		// a peer that authenticates malformed content may be answered with a fatal alert and a
@@ -307,6 +305,9 @@ func c08EstRun(rc *RunCtx, p *C08Params) {
 	}
 	if p.Mode == "C" {
 		what, tag = "cleartext (epoch 0) records", ":after-cleartext-records"
+	}
+	if p.Mode == "R" {
+		what, tag = "spoofed cleartext retransmissions / next handshake messages", ":after-spoofed-retransmissions"
 	}
 	for i := 0; i < 2; i++ {
 		if !write("c", 200+i, 30+i) || !write("s", 200+i, 30+i) {
